@@ -37,7 +37,7 @@ TEXT.update({
             "Queue::set_size silently ignores non powers of two (outside the property's accepted sizes); the SET_VRING_ADDR call order is a scan obligation."),
     "C15": ("AtomicBitmapMmap::new accepts exactly when the log covers the region's last page; mark_dirty performs exactly the writes (byte page/8, bit page%8 of the absolute page) for every offset/length with every index inside the mapping; BitmapMmapRegion::mark_dirty logs a write at `offset` of a slice as a write at base_address + offset of the region, slice_at adds offsets and shares the inner bitmap, replace installs the new log; handler set_log_base installs the log in EVERY region or, when refused, in none (Verus, unbounded) - plus bit-exact effect on a real in-memory log for all layouts of a 32-page log (Kani, bounded). Logging stays in force across memory-table changes: Verus clause on set_mem_table / add_mem_region FAILS (two known findings).",
             "Atomicity rests on fetch_or being the only write to the log (scan) + A-ATOMIC; sharing of the inner bitmap between slices is A-CLONE; two known findings (regions added / tables installed after SET_LOG_BASE are not logged)."),
-    "C16": ("Sequential fragment only: wait()'s join-result classification uses the shutdown flag as read AFTER the join, connection state reset on every path; serve() raises the exit events exactly once whatever wait() returns and maps clean/partial disconnects to success; the worker's epoll loop returns only after the exit event was dispatched; the request body read ends at end of stream (the daemon thread cannot spin after the peer closed inside a body); each worker registers the consumer half of the backend's exit event once with id num_queues and keeps the notifier half of the same pair, send_exit_event writes EVERY worker's exit eventfd exactly once, and Drop for VhostUserHandler writes them before it joins any worker and joins every worker (Verus, every number of workers); shutdown stores the flag before shutting the socket down, Drop and the daemon thread shut both directions, serve()'s exit-event statement is unconditional (scan).",
+    "C16": ("Sequential fragment only: wait()'s join-result classification uses the shutdown flag as read AFTER the join, connection state reset on every path; serve() raises the exit events exactly once whatever wait() returns and maps clean/partial disconnects to success; the worker's epoll loop returns only after the exit event was dispatched; the request body read ends at end of stream (the daemon thread cannot spin after the peer closed inside a body); each worker registers the consumer half of the backend's exit event once with id num_queues and keeps the notifier half of the same pair, send_exit_event writes EVERY worker's exit eventfd exactly once, and Drop for VhostUserHandler writes them before it joins any worker and joins every worker (Verus, every number of workers); ShutdownHandle::shutdown records the request and THEN shuts the socket down in both directions, nothing else (Verus, ghost event log; also kept as a scan); Drop and the daemon thread shut both directions, serve()'s exit-event statement is unconditional (scan).",
             "Every timing clause of the property (position of the shutdown request relative to the daemon thread, bounded time, peer observing EOF) is schedules x crash points and is NOT decided."),
     "C17": ("For EVERY queues-per-thread configuration (any number of workers, any 64-bit masks, up to 64 queues; Verus, unbounded): VhostUserHandler::new gives worker t the thread id t and the rings of mask t in increasing queue order; update_vring_registration talks only to the FIRST worker whose mask contains the queue, with event id popcount(mask) - popcount(mask >> q) = number of the mask's queues below q; lemma: slice[event id] is queue q, and the owner is unique. VringEpollHandler::new keeps backend, ring slice and thread id and registers the exit event with id num_queues; register/unregister_event issue exactly one epoll_ctl(Add/Delete) with the caller's descriptor, event set and id; register/unregister_listener refuse ids <= num_queues and ids above 65535 without touching the epoll set (Verus). Real-code Kani: the worker's dispatch (backend entered with the registered id, the thread id and its slice), custom listener ids (reserved range refused, accepted ids delivered unchanged by the 16-bit dispatch, never a ring rank or the exit id; all u64 ids), registration on the real handler (bounded: 3 queues, masks < 8).",
             "Assumed: u64::count_ones is the population count (A-POPCNT), Arc / thread spawn / epoll_ctl are opaque (R23, argument contracts); more than 64 queues overflow `mask >> index` (A-NQ64, precondition)."),
